@@ -121,7 +121,7 @@ CHECKS = {
             'Six shapes (CrossBlock with weights / window start / Exclude, MultiCrossBlock, Repeat, Nest) are confirmed over '
             'all paths to report the closed-form trial count for every n, w, start in range; every corpus descriptor '
             '(incl. Nest designs and the mode x alignment grid) must report the documented count; 2 sequences per strategy '
-            'are checked for length.',
+            '(IterateSATGen, RandomGen, CMSGen, UniGen; SMGen on a fixed list of 8 designs, two of them known findings) are checked for length.',
             'Parameters are branched to concrete values path by path (solver-driven enumeration of the ranges); the '
             'for-all-models length statement is carried by R in C01/C02/C04.', '6 C16'),
     'C18': (TV, 'A', 'enumerated construction histories; per block, projection inclusion both ways between the formula built '
